@@ -346,7 +346,7 @@ func (check) Cases(tier string) int { return chunkCases(tier) + len(allSettings)
 func (check) Exhaustive(string) bool { return true }
 
 func (check) Rule() string {
-	return "universe = every string of length <= 4 (thorough: <= 5) over the alphabet {- + 0 1 9 x b o _ a}, every integer literal (strconv.ParseInt base 0 accepts it) one character longer over the same alphabet, and a table of boundary spellings (m-1, m, m+1, 2m+2 for every MaxIdx m in decimal / sign / 0x / 0X / 0b / 0o / legacy-octal / leading-zero / underscore form, -0, +0, 0x, 1e3, 1.0, spaces, non-ASCII digits, -2^63, 2^16+1, 2^20 ...); a case = 8 universe strings (stride) + 2 seed-chosen longer spellings/one-edit look-alikes of small and boundary integers. Each string x position {whole key without PathSep, whole key with PathSep(\".\"), first, middle, last dotted segment; thorough also twice (s.s), deep-last, middle with PathSep(\"/\")} x usage {map key (NewFrom), setter name (SetInt), struct tag (reflect.StructOf + NewFrom), getter name Has/Int/Remove and struct tag on Unpack, both on a prepared config that holds list slot v AND the name s} x setting: integer literals meet all MaxIdx {-5,-1,0,1,7,1024,65536} x EnableNumKeys {false,true}; strings that are no integer literal (names under every setting) meet MaxIdx 65536/false plus one setting chosen by the string (thorough: all 14 up to length 4). The last 14 cases walk, for one (m, e) each, the over-limit ladder m+1, 2m+2, 2^16+1, 2^20 in ascending order and only if all of those were names 2^31, 2^40, 2^63-1, 2^63, 2^64-1 (decimal and 0x). Non-trivial = the string contains a digit (numeric or near-numeric); distinct = distinct (position, string). 'classifications' counts (segment under test, setting, position, usage) role observations. Round 3 (names.go): three more building usages - setter name TOGETHER WITH an idx argument 0..2 (SetInt(key, j, v): the key's segments keep their roles, below them a list of j+1 slots), -D key=value and -D key (auto-bool) through flag.NewFlagKeyValue(...).Set; on a second prepared config that holds list slot v AND the name s, each leading to a LIST (4 entries under the name, 5 in the slot, different contents): Has/Int/Uint/Float/String/Bool/Child(key, idx>=0), CountField(key), one of the six setters (key, idx) and Remove(key, idx) must reach the list the oracle's role of s selects; CountField(key) also on every config built from a map key (must be 1 like Has/Int with the same key). Every chunk case also takes one entry of a table of white-space padded literals (11 literals x 15 pads - all Unicode White_Space classes, zero-width space, BOM - leading / trailing / both / inner, all of it over the cases) and one seed-chosen padded spelling through all positions and usages. Round 4 (refs.go): per (string, position, setting) also (a) REFERENCE NAMES - {key: v, r: ref} built and read under one option set (+VarExp, EscapePath in the cases with an even value) with ref = ${key}, ${key:dflt}, ${key:+alt}, ${key:?msg}, ${${n}} (n = key): every form must read the setting the map key of the same spelling created; (b) FieldAppendValues(key) given last, PathSep(\".\") positions: NewFrom({key:[one], key2:[one]}) + Merge({key:[two], key2:[two]}) must leave 2 entries under key and 1 under key2, key2 = a key the oracle says is a different setting of the same kind (another spelling of the same number when both are names, the neighbouring index when both are indices); and once per (string, position with a prefix) (c) the prepared config holding list slots and the name s side by side unpacked from the top into map[string]interface{}: the name comes back with its own value also when it is spelled like the position of a list entry (or Unpack reports the clash). Round 5 (only.go), for every string with a numeric reading 0..1100: two more prepared configs whose holder has ONLY the name s (no list, or a list ending right before entry v) or ONLY the list entries v, v+1 (a pure list, no name); under every setting the key is used as Has/Int name, as struct tag on Unpack in four struct shapes (plain field, struct inlined by value / through a nil pointer / through an allocated pointer), the number as idx argument, and - when the key's role is the absent one - as SetInt name on a fresh copy: the present role is found, the absent role finds nothing (never the value of the other role) and the setter creates it next to the present one without touching it. Every case additionally drives 8 seed-chosen SEQUENCES of calls on one list (seq.go): setting = MaxIdx {-5,-1,0,1,2,3,4,7,16,100,1024} x EnableNumKeys x PathSep {none, '.', '/'}; the list is the config itself, a named setting, a nested setting or a list inside a list; it is brought to a start length L (0, 1..6, exactly MaxIdx+1, above MaxIdx+1) element by element, by one padded jump or from the caller's own slice; then 3..8 calls that carry an index drawn relative to (MaxIdx, L): inside the list, append (L), padded growth within MaxIdx, MaxIdx / MaxIdx+1, the band (max(MaxIdx,L), MaxIdx+L], just beyond it, huge (2^16+1 .. MaxInt64); the index arrives as idx argument of SetBool/SetInt/SetUint/SetFloat/SetString/SetChild, as idx argument of Has/Int/String/Child/Remove, or spelled (decimal, other integer syntaxes, look-alikes, negative) as last segment of a setter name, of a flat map key given to Merge, of a struct tag, of a -D style flag (flag.NewFlagKeyValue(...).Set), or as a key of its own in a nested map / nested struct given to Merge. Non-trivial distinct sequence steps = (list location, MaxIdx, L, entry point) of the steps inside the band."
+	return "universe = every string of length <= 4 (thorough: <= 5) over the alphabet {- + 0 1 9 x b o _ a}, every integer literal (strconv.ParseInt base 0 accepts it) one character longer over the same alphabet, and a table of boundary spellings (m-1, m, m+1, 2m+2 for every MaxIdx m in decimal / sign / 0x / 0X / 0b / 0o / legacy-octal / leading-zero / underscore form, -0, +0, 0x, 1e3, 1.0, spaces, non-ASCII digits, -2^63, 2^16+1, 2^20 ...); a case = 8 universe strings (stride) + 2 seed-chosen longer spellings/one-edit look-alikes of small and boundary integers. Each string x position {whole key without PathSep, whole key with PathSep(\".\"), first, middle, last dotted segment; thorough also twice (s.s), deep-last, middle with PathSep(\"/\")} x usage {map key (NewFrom), setter name (SetInt), struct tag (reflect.StructOf + NewFrom), getter name Has/Int/Remove and struct tag on Unpack, both on a prepared config that holds list slot v AND the name s} x setting: integer literals meet all MaxIdx {-5,-1,0,1,7,1024,65536} x EnableNumKeys {false,true}; strings that are no integer literal (names under every setting) meet MaxIdx 65536/false plus one setting chosen by the string (thorough: all 14 up to length 4). The last 14 cases walk, for one (m, e) each, the over-limit ladder m+1, 2m+2, 2^16+1, 2^20 in ascending order and only if all of those were names 2^31, 2^40, 2^63-1, 2^63, 2^64-1 (decimal and 0x). Non-trivial = the string contains a digit (numeric or near-numeric); distinct = distinct (position, string). 'classifications' counts (segment under test, setting, position, usage) role observations. Round 3 (names.go): three more building usages - setter name TOGETHER WITH an idx argument 0..2 (SetInt(key, j, v): the key's segments keep their roles, below them a list of j+1 slots), -D key=value and -D key (auto-bool) through flag.NewFlagKeyValue(...).Set; on a second prepared config that holds list slot v AND the name s, each leading to a LIST (4 entries under the name, 5 in the slot, different contents): Has/Int/Uint/Float/String/Bool/Child(key, idx>=0), CountField(key), one of the six setters (key, idx) and Remove(key, idx) must reach the list the oracle's role of s selects; CountField(key) also on every config built from a map key (must be 1 like Has/Int with the same key). Every chunk case also takes one entry of a table of white-space padded literals (11 literals x 15 pads - all Unicode White_Space classes, zero-width space, BOM - leading / trailing / both / inner, all of it over the cases) and one seed-chosen padded spelling through all positions and usages. Round 4 (refs.go): per (string, position, setting) also (a) REFERENCE NAMES - {key: v, r: ref} built and read under one option set (+VarExp, EscapePath in the cases with an even value) with ref = ${key}, ${key:dflt}, ${key:+alt}, ${key:?msg}, ${${n}} (n = key): every form must read the setting the map key of the same spelling created; (b) FieldAppendValues(key) given last, PathSep(\".\") positions: NewFrom({key:[one], key2:[one]}) + Merge({key:[two], key2:[two]}) must leave 2 entries under key and 1 under key2, key2 = a key the oracle says is a different setting of the same kind (another spelling of the same number when both are names, the neighbouring index when both are indices); and once per (string, position with a prefix) (c) the prepared config holding list slots and the name s side by side unpacked from the top into map[string]interface{}: the name comes back with its own value also when it is spelled like the position of a list entry (or Unpack reports the clash). Round 5 (only.go), for every string with a numeric reading 0..1100: two more prepared configs whose holder has ONLY the name s (no list, or a list ending right before entry v) or ONLY the list entries v, v+1 (a pure list, no name); under every setting the key is used as Has/Int name, as struct tag on Unpack in four struct shapes (plain field, struct inlined by value / through a nil pointer / through an allocated pointer), the number as idx argument, and - when the key's role is the absent one - as SetInt name on a fresh copy: the present role is found, the absent role finds nothing (never the value of the other role) and the setter creates it next to the present one without touching it. Every case additionally drives 8 seed-chosen SEQUENCES of calls on one list (seq.go): setting = MaxIdx {-5,-1,0,1,2,3,4,7,16,100,1024} x EnableNumKeys x PathSep {none, '.', '/'}; the list is the config itself, a named setting, a nested setting or a list inside a list; it is brought to a start length L (0, 1..6, exactly MaxIdx+1, above MaxIdx+1) element by element, by one padded jump or from the caller's own slice; then 3..8 calls that carry an index drawn relative to (MaxIdx, L): inside the list, append (L), padded growth within MaxIdx, MaxIdx / MaxIdx+1, the band (max(MaxIdx,L), MaxIdx+L], just beyond it, huge (2^16+1 .. MaxInt64); the index arrives as idx argument of SetBool/SetInt/SetUint/SetFloat/SetString/SetChild, as idx argument of Has/Int/String/Child/Remove, or spelled (decimal, other integer syntaxes, look-alikes, negative) as last segment of a setter name, of a flat map key given to Merge, of a struct tag, of a -D style flag (flag.NewFlagKeyValue(...).Set), or as a key of its own in a nested map / nested struct given to Merge. Non-trivial distinct sequence steps = (list location, MaxIdx, L, entry point) of the steps inside the band. Round 6 (optlist.go): every case also draws 2 OPTION LISTS in which EnableNumKeys (1..3 times, true/false) and MaxIdx (1..3 times, limits around the numeric reading of the key and the usual ones) occur repeatedly, shuffled together with PathSep (once or twice, one separator) and 0..3 options that do not concern keys; two keys per list (small integers in every spelling, another spelling of a neighbouring number, near-numeric strings) at a random position, each through map key / setter name / struct tag / setter name + idx argument / flag and the getters of rounds 1 and 3 on the prepared configs - one list value for all of those calls; the oracle is the classifier under the arguments of the LAST MaxIdx and the LAST EnableNumKeys of the list. A third of the sequences (seq.go) get their setting as the end of such a list, used in every call of the sequence. Non-trivial distinct = (position, key, effective setting) of the keys whose role depends on which occurrence is taken."
 }
 
 func (check) Assumptions() []string {
@@ -370,6 +370,7 @@ func (check) Assumptions() []string {
 		"sequences (seq.go): after ONE call that carries one index a list of L slots has at most max(L, MaxIdx+1) slots (L+1 if the call addressed slot L itself, L+k for the caller's own k-entry list during prefill); the same law is applied to every (old, new) pair at the grow hook: new <= max(old+1, MaxIdx+1). This is how 'no single key makes a list grow beyond MaxIdx+1 entries' is read for a list that exists already (element by element a list may pass MaxIdx+1, see known_findings 49b3c01)",
 		"sequences: pinned and compared - idx argument or index segment v within [0, MaxIdx]: the call succeeds, the list has max(L, v+1) slots, slot v holds the value, the names next to the list are unchanged; a segment that is a name (also a literal above MaxIdx that is below L): the list keeps its length and the name is stored byte for byte next to it with the value; idx argument above MaxIdx and beyond slot L: the call fails and the list keeps its length; getters never grow a list. NOT pinned and only bounded: whether an idx argument above MaxIdx that addresses an existing slot or slot L is accepted (recorded in monitors seq_above_max_*), Remove's effect on the length (L or L-1), the content of the other slots after Merge/flag calls (Merge pads with nil and the padding overwrites lower slots - not a C20 matter)",
 		"sequences: list merge policies (Append/Prepend/ReplaceValues) are not used - under them one index key legitimately adds its whole padded list; the default MaxIdx is not exercised (MaxIdx is always explicit); values are read back with Unpack into []interface{} / map[string]interface{} of the list holder reached with Child(name, -1) / Child(\"\", j) under default options (holder names are plain words)",
+		"option lists (optlist.go): options are applied in the order given, a later MaxIdx / EnableNumKeys replaces the value of an earlier one ('the configured maximum index', 'numeric keys are not enabled' = what the list says at its end), and an option value may be used in any number of calls; PathSep is only repeated with the same separator, the other options in the list (VarExp, StructTag(\"config\"), ValidatorTag(\"validate\"), MetaData) do not concern keys; every list contains MaxIdx and EnableNumKeys at least once (defaults are not exercised); limits stay below 2300 and a key whose numeric reading is above 1100 is a name under every occurrence. A deviation is named after the occurrence that was taken instead of the last one only if the canonical list PathSep, MaxIdx, EnableNumKeys of the effective setting is silent on the same calls",
 		"safety: the grow hook aborts (panics inside harness.Safe) any list growth beyond what the oracle allows for the operation, so a wrongly accepted index never allocates",
 	}
 }
@@ -554,6 +555,11 @@ type world struct {
 	// law >= 0 (sequences on existing lists): every single growth event
 	// (old, new) must satisfy new <= max(old+1, law), law = MaxIdx+1
 	law int
+
+	// the drawn option list while an option-list scenario runs (optlist.go)
+	ol *optList
+	// source of the option lists of the sequences (separate: the sequences' own stream is unchanged)
+	olr *rand.Rand
 }
 
 type tripwire struct{ b int }
@@ -946,7 +952,7 @@ func (w *world) builder(u int, pos position, key string, st setting, segs []segm
 			allowed = int(sg.v) + 1
 		}
 	}
-	opts := st.opts(pos.sep)
+	opts := w.optsFor(st, pos.sep)
 	var (
 		c   *ucfg.Config
 		err error
@@ -1258,7 +1264,7 @@ func (w *world) getters(pos position, s, key string, sts []setting, T reflect.Ty
 			fstate = [3]int8{}
 		}
 		sg := classify(s, st, single)
-		opts := st.opts(pos.sep)
+		opts := w.optsFor(st, pos.sep)
 		wantVal := int64(nameValue)
 		if sg.index {
 			wantVal = 100 + sg.v
@@ -1624,6 +1630,10 @@ func (check) Run(seed int64, tier string, idx int, verbose bool) harness.Result 
 	// every case also drives sequences of calls on one list (seq.go)
 	w.arm(1 << 17)
 	w.runSequences(seed, idx)
+	// ... and option lists that repeat MaxIdx / EnableNumKeys (optlist.go)
+	w.law = -1
+	w.arm(1 << 17)
+	w.runOptLists(seed, idx)
 	return res.Done()
 }
 
